@@ -5,7 +5,7 @@ from concurrent.futures import ThreadPoolExecutor
 
 VERIF = os.path.dirname(os.path.dirname(os.path.abspath(__file__)))
 REPO = os.environ.get('SYMX_REPO', '/repo')
-BUILD = os.path.join(VERIF, 'build')
+BUILD = os.environ.get('SYMX_BUILD') or os.path.join(VERIF, 'build')   # mutation tools point this into their scratch copy
 CXX = 'g++'
 COMMON = ['-std=c++17', '-I/usr/include/eigen3', '-I' + os.path.join(REPO, 'include'), '-w']
 SYM_FLAGS = ['-O1', '-DEIGEN_INITIALIZE_MATRICES_BY_NAN']
@@ -111,7 +111,7 @@ def ensure(tus, native_too=True, jobs=16):
             'tree_hash': tree_hash(), 'repo_hash': repo_hash()}
 
 
-def prune(keep=6):
+def prune(keep=24):
     """Keep only the most recently used build directories (disk is limited)."""
     if not os.path.isdir(BUILD):
         return
@@ -123,7 +123,7 @@ def prune(keep=6):
         if os.path.basename(d) == cur:
             continue
         kept += 1
-        if kept >= keep and time.time() - os.path.getmtime(d) > 1800:
+        if kept >= keep and time.time() - os.path.getmtime(d) > 4 * 3600:   # never a directory a long-running check may still be using
             shutil.rmtree(d, ignore_errors=True)
     p = os.path.join(BUILD, cur)
     if os.path.isdir(p):
